@@ -4,7 +4,7 @@
     tied by correspondence only; see evidence assumptions): round trips of
     x86, ARM-Thumb, ARM64, PowerPC, SPARC, IA-64, RISC-V; the simple_coder
     buffering protocol. *)
-From XZ Require Import Base Bcj BcjInst BcjProofs.
+From XZ Require Import Base Bcj BcjInst BcjProofs BcjProofs2.
 Local Open Scope N_scope.
 
 Theorem delta_decode_encode : forall dist l, bytes_ok l -> delta_decode dist (delta_encode dist l) = l.
@@ -42,3 +42,13 @@ Print Assumptions arm_alignment_is_needed.
 Example arm_converts : fst (arm_code true 4096 [1;0;0;235]) = [3;4;0;235]
   /\ fst (arm_code false 4096 [3;4;0;235]) = [1;0;0;235].
 Proof. vm_compute. split; reflexivity. Qed.
+
+Theorem powerpc_decode_encode : forall start l, aligned4 (w32 start) -> bytes_ok l ->
+  fst (powerpc_code false start (fst (powerpc_code true start l))) = l.
+Proof. exact powerpc_roundtrip. Qed.
+Print Assumptions powerpc_decode_encode.
+
+Theorem sparc_decode_encode : forall start l, aligned4 (w32 start) -> bytes_ok l ->
+  fst (sparc_code false start (fst (sparc_code true start l))) = l.
+Proof. exact sparc_roundtrip. Qed.
+Print Assumptions sparc_decode_encode.
